@@ -3,7 +3,7 @@
 from __future__ import annotations
 
 from ..execmodel import lit, node, table
-from ..values import Const, EnumV, Lst, NodeV
+from ..values import Const, EnumV, Lst, NodeV, Sym
 from .wiring import ABSENT, ENUM, IS, LIST, LITERAL, P, RAISES, S, UNCHANGED, anon, dtype, run_cases
 
 
@@ -146,6 +146,11 @@ def cases():
                       (isinstance(v, NodeV) and "2147483647-0.5" in (v.args.get("seed").text() if hasattr(v.args.get("seed"), "text") else str(getattr(v.args.get("seed"), "v", ""))))
                       else f"seed side channel is `{getattr(v.args.get('seed'), 'v', v.args.get('seed')) if isinstance(v, NodeV) else v}`"),
         "the same seed must map to the same setseed() argument in [-0.5, 0.5]")
+    add("IDENTIFIER('<name>') -> an unquoted identifier with exactly the literal's text (so db.schema.table still resolves)", "identifier",
+        mk(lambda o: anon("identifier", op(o, "x", lit(Sym("NAME_TEXT", typ="str", truthy=True), True)))),
+        lambda o, i: P("Identifier", this=(lambda v, path: None if (isinstance(v, Sym) and "NAME_TEXT" in v.tag) else f"{path} is `{getattr(v, 'tag', v)}`, expected the literal's text"),
+                       quoted=(lambda v, path: None if (isinstance(v, Const) and v.v is False) else f"{path} is `{getattr(v, 'tag', v)}`, expected quoted=False")),
+        "IDENTIFIER() names an object by (possibly qualified) unquoted text; quoting it makes `db.s.t` one identifier")
     add("TRIM(x, chars) keeps the trim characters", "trim_cast_varchar",
         mk(lambda o: node("Trim", "stmt", this=op(o, "x"), expression=op(o, "chars"))),
         lambda o, i: P("Trim", this=P("Cast", this=IS(o["x"])), expression=IS(o["chars"])), "TRIM(x, chars) removes the given characters, not whitespace")
